@@ -92,13 +92,14 @@ impl Listener<u8, Option<usize>> for Rec {
     }
 }
 
+/// EVERY system-call name of the build: `SyscallName` is a fieldless `#[repr(C)]` enum whose last variant is `panicking`, so
+/// its values are exactly the discriminants 0..=panicking (an earlier version drew from 4 names only and missed a change that
+/// special-cased one particular name).
 fn any_syscall_name() -> SyscallName {
-    match kani::any::<u8>() % 4 {
-        0 => SyscallName::sleep,
-        1 => SyscallName::nanosleep,
-        2 => SyscallName::recv,
-        _ => SyscallName::send,
-    }
+    const _: () = assert!(std::mem::size_of::<SyscallName>() == 4);
+    let d: u32 = kani::any();
+    kani::assume(d <= SyscallName::panicking as u32);
+    unsafe { std::mem::transmute::<u32, SyscallName>(d) }
 }
 fn any_syscall_state() -> SyscallState {
     match kani::any::<u8>() % 4 {
